@@ -6,6 +6,6 @@ D=/tmp/mrepo-$$
 rsync -a --exclude .git /repo/ $D/
 (cd $D && patch -p1 -s < $P)
 cd /verif
-VERIF_EVIDENCE_DIR=/tmp/mevidence-$$ TRACKPY_REPO=$D ./check $C --tier $T 2>&1 | grep -E "VIOLATION|KNOWN|violated|tier=" | head -8
+VERIF_EVIDENCE_DIR=/tmp/mevidence-$$ TRACKPY_REPO=$D ./check $C --tier $T 2>&1 | grep -E "VIOLATION|KNOWN|violated|tier=" | head -14
 rm -rf $D /tmp/mevidence-$$
 cd /verif && python3 tools/regen_all.py >/dev/null 2>&1 || true   # translators ran against the scratch tree: regenerate from /repo
